@@ -79,6 +79,16 @@ def words_task(task):
     rnd = random.Random(task['seed'])
     g = S.mk_group(dict(task, randmem=task['seed']))
     for k, (thumb, w, ccls) in enumerate(task['words']):
+        # "decode depends on nothing but the word (and the instruction set it is fetched in)": the same 32-bit value is first
+        # executed in the OTHER instruction set on the same object - whatever the implementation remembers about a word
+        # (decode caches keyed by the value alone) must not leak from one instruction set into the other
+        other_ok = (w >> 27) >= 29 if not thumb else (w >> 16) != 0
+        if other_ok and (not thumb or k % 3 == 0):
+            st, pc = S.prep(g, rnd, task, not thumb, 0, k)
+            if g.cfg['arch_version'] >= 7:
+                st['sys']['SCTLR'] = limbs(C.unlimbs(st['sys']['SCTLR']) | (1 << 22))
+            C.put_instr(st, pc, w, not thumb)
+            g.add(st, {'n': 'Step'}, meta={'word': w, 'thumb': not thumb, 'cube': None, 'itpos': 0, 'prime': True})
         itpos = rnd.choice([0, 0, 1, 2]) if thumb else 0
         st, pc = S.prep(g, rnd, task, thumb, itpos, k)
         if rnd.random() < 0.5:
